@@ -2375,6 +2375,11 @@ class Kconfig(object):
                     # case something still depends on it
                     _touch_dep_file(path, name)
 
+                    # Its deprecated aliases vanish from the header together with it
+                    if self._deprecated_options:
+                        for dep_name in self._deprecated_options.get_deprecated_option(name):
+                            _touch_dep_file(path, dep_name)
+
     def _write_old_vals(self, path):
         # Helper for writing auto.conf. Basically just a simplified
         # write_config() that doesn't write any comments (including
